@@ -124,6 +124,7 @@ type kase struct {
 	ConfVer   uint64 `json:"conf_ver,omitempty"`
 	NoLeader  bool   `json:"no_leader,omitempty"`
 	FailAlloc string `json:"fail_alloc,omitempty"` // "" | direct | controller | both
+	Malformed string `json:"malformed,omitempty"`  // "" | dup-store | missing-store: only "no panic" is judged
 	// the history that led there (one long-lived checker): the initial cluster and the rounds so far
 	Initial *world      `json:"initial_world,omitempty"`
 	History []roundDesc `json:"history,omitempty"`
@@ -222,6 +223,9 @@ func genWorld(rng *rand.Rand, large bool) *world {
 		w.RuleSet = append(w.RuleSet, genRangedRules(rng, nz)...)
 	}
 	applyCaseVariants(rng, w)
+	if rng.Intn(25) == 0 {
+		w.Stores[rng.Intn(len(w.Stores))].ID = ^uint64(0) // the largest store id there is
+	}
 	return w
 }
 
@@ -624,6 +628,7 @@ type regionDesc struct {
 	Layout    string `json:"layout"`
 	NoLeader  bool   `json:"no_leader,omitempty"`
 	FailAlloc string `json:"fail_alloc,omitempty"`
+	Malformed string `json:"malformed,omitempty"`
 	Revisit   bool   `json:"revisit,omitempty"`
 }
 
